@@ -573,6 +573,7 @@ class ProgGen:
         self.mode = "callable"
         self.fresh = 0
         self.caps: Dict[str, Tuple[str, Any]] = {}     # captured name -> (scope, type)
+        self.hcount = 0
         self.reserved: set = set()                     # the parameter of the lambda being written (used through projections)
         self.force_scope = None                        # inside a module-level helper only module globals are visible
 
@@ -585,6 +586,10 @@ class ProgGen:
             if c not in inscope:
                 self.p.features.add("binder-hides-capture")
                 return c
+        shadowable = [n for n, _ in env if n not in self.reserved and not n.startswith("_P")]
+        if shadowable and self.r.random() < 0.07:
+            self.p.features.add("binder-shadows-binder")
+            return self.r.choice(shadowable)
         cand = [b for b in self.BINDERS if b not in inscope]
         if cand and self.r.random() < 0.9:
             return self.r.choice(cand)
@@ -642,7 +647,8 @@ class ProgGen:
         """A one-line helper `def h(...): return ...`; returns (name, kind) with kind in int2 / rec:<cls> / seq:<cls>"""
         r = self.r
         scope = r.choice(["g", "l"]) if self.force_scope is None else self.force_scope
-        name = "h%d" % (len(self.p.helpers) + 1)
+        self.hcount += 1
+        name = "h%d" % self.hcount
         kind = r.choice(["int2", "int2", "rec", "seq", "int1"])
         saved_mode, saved_scope = self.mode, self.force_scope
         self.mode = "callable"
@@ -680,7 +686,7 @@ class ProgGen:
                 and n not in {x for x, _ in env} and (self.force_scope is None or sc == self.force_scope)]
         if have and self.r.random() < 0.6:
             return self.r.choice(have)
-        if len(self.p.helpers) >= 3:
+        if self.hcount >= 3:
             return self.r.choice(have) if have else None
         for _ in range(4):
             n, k = self.new_helper(env)
@@ -1143,12 +1149,21 @@ class ProgGen:
         c = self.new_capture(kind, [("e", REC("Event"))])
         use = {"none": "(e.a if %s is None else e.b)" % c, "list": "(e.a in %s)" % c, "tuple": "%s[0] + e.a" % c,
                "dict": "%s['k'] + e.a" % c}[kind]
+        op = r.choice(["Select", "Where", "SelectMany"])
+        if op == "Where":
+            lam = "lambda e: (%s) > 0" % use if kind != "list" else "lambda e: %s" % use
+            out_t = REC("Event")
+        elif op == "SelectMany":
+            lam = "lambda e: e.jets.Select(lambda j: (j.a, %s))" % use
+            out_t = TUP([INT, INT])
+        else:
+            lam, out_t = "lambda e: %s" % use, INT
         if r.random() < 0.5:
             p.stages.append(Stage(0, "Select", "callable", "lambda e: e.Jets()", REC("Event"), SEQ(REC("Jet"))))
-            p.stages.append(Stage(0, "Select", "callable", "lambda e: %s" % use, REC("Event"), INT))
+            p.stages.append(Stage(0, op, "callable", lam, REC("Event"), out_t))
             p.outputs.append((2, None))
         else:
-            p.stages.append(Stage(0, "Select", "callable", "lambda e: %s" % use, REC("Event"), INT))
+            p.stages.append(Stage(0, op, "callable", lam, REC("Event"), out_t))
             p.outputs.append((1, None))
         p.expect_refusal = True
         p.features.add("non-transportable-capture:" + kind)
@@ -1506,8 +1521,10 @@ def model_requests(prog: Program, mod, calls, typed: bool) -> List[List[str]]:
     w = World(mod, prog.cm)
     world = w.sx()
     item = w.ty(mod.Event) if typed else "Any"
-    stage_sx = []
-    for k, st in enumerate(prog.stages):
+    needed = sorted({i for s, _ in prog.outputs for i in prog.path(s)})
+    stage_sx = {}
+    for k in needed:
+        st = prog.stages[k]
         lam = ast.parse(st.lam, mode="eval").body
         if not plain_tree(lam):
             raise OutsideDomain("non-plain lambda")
@@ -1517,7 +1534,7 @@ def model_requests(prog: Program, mod, calls, typed: bool) -> List[List[str]]:
             acq = "(Callable %s)" % cenv_sx(lam, calls[k][1], prog.helpers)
         else:
             acq = "AsIs"
-        stage_sx.append("(%s %s %s)" % (st.op, acq, bridge.to_sx(lam)))
+        stage_sx[k] = "(%s %s %s)" % (st.op, acq, bridge.to_sx(lam))
     reqs = []
     for s, term in prog.outputs:
         path = prog.path(s)
@@ -1533,10 +1550,9 @@ TERMINAL_METHOD = {"as_awkward": "AsAwkwardArray", "as_pandas": "AsPandasDF", "a
 
 
 def terminal_sx(term: Tuple[str, str]) -> str:
-    """(method (argname literal)...) with the arguments bound to the method's parameter names, as Python binds them;
-    `columns` is normalised to a list as the methods themselves do before as_ast"""
+    """(method (parameter value)...): the arguments bound to the method's parameter names as Python binds them,
+    defaults applied; a value is (S hex) for a string, (L hex ...) for a list of strings"""
     from func_adl import ObjectStream
-    from func_adl.util_ast import as_ast
 
     meth = TERMINAL_METHOD.get(term[0], term[0])
     args = eval("(lambda *a, **k: (a, k))(%s)" % term[1], {})
@@ -1545,7 +1561,11 @@ def terminal_sx(term: Tuple[str, str]) -> str:
     ba.apply_defaults()
     items = []
     for name, val in list(ba.arguments.items())[1:]:
-        if name == "columns" and isinstance(val, str):
-            val = [val]
-        items.append("(%s %s)" % (bridge.hx(name), bridge.to_sx(as_ast(val))))
+        if isinstance(val, str):
+            v = "(S %s)" % bridge.hx(val)
+        elif isinstance(val, list) and all(isinstance(x, str) for x in val):
+            v = "(L %s)" % " ".join(bridge.hx(x) for x in val)
+        else:
+            raise OutsideDomain("terminal argument %r" % (val,))
+        items.append("(%s %s)" % (bridge.hx(name), v))
     return "(%s %s)" % (bridge.hx(meth), " ".join(items))
